@@ -50,6 +50,11 @@ type JRound struct {
 	Seq    uint64     `json:"seq"`
 	Digest string     `json:"digest"`
 	Prev   *JOutcome  `json:"prev"`
+	// how the previous outcome reaches Outcome: "" = the encoding of Prev (nil slice when Prev is nil); "empty" = a
+	// non-nil slice of length 0; "garbage" = PrevRaw, bytes that do not decode; "invalid" = the encoding of Prev, which
+	// breaks a validation rule
+	PrevMode string   `json:"prevMode,omitempty"`
+	PrevRaw  string   `json:"prevRaw,omitempty"`
 	Obs    []JAttrObs `json:"obs"`
 	Aux    JRoundAux  `json:"aux"`
 }
@@ -735,16 +740,70 @@ func buildRound(n, f int, digest [32]byte, seq uint64, prev *ocr2keepersv3.Autom
 	return jr
 }
 
+// prevBytesOf is the previous-outcome byte slice a case hands to Outcome.
+func prevBytesOf(in JRound) []byte {
+	switch in.PrevMode {
+	case "empty":
+		return []byte{}
+	case "garbage":
+		return unhx(in.PrevRaw)
+	}
+	if in.Prev != nil {
+		return must(fromJOutcome(*in.Prev).Encode())
+	}
+	return nil
+}
+
+// badPrevVariant turns a round into one whose previous outcome must make Outcome fail: the same observations, a previous
+// outcome that is empty-but-not-nil, cut short, or in breach of one validation rule.
+func badPrevVariant(r *Rng, in JRound, prev *ocr2keepersv3.AutomationOutcome) (JRound, bool) {
+	out := in
+	switch r.Intn(4) {
+	case 0:
+		out.PrevMode = "empty"
+		out.Prev = nil
+	case 1:
+		if prev == nil {
+			return in, false
+		}
+		b := must(prev.Encode())
+		out.PrevMode = "garbage"
+		out.PrevRaw = hx(b[:len(b)-1-r.Intn(len(b)/2+1)])
+		out.Prev = nil
+	case 2:
+		// more rounds of history than the limit
+		p := ocr2keepersv3.AutomationOutcome{}
+		if prev != nil {
+			p.AgreedPerformables = prev.AgreedPerformables
+			p.SurfacedProposals = append(p.SurfacedProposals, prev.SurfacedProposals...)
+		}
+		for len(p.SurfacedProposals) <= ocr2keepersv3.OutcomeSurfacedProposalsRoundHistoryLimit {
+			p.SurfacedProposals = append(p.SurfacedProposals, []ocr2keepers.CoordinatedBlockProposal{})
+		}
+		jp := toJOutcome(p)
+		out.Prev = &jp
+		out.PrevMode = "invalid"
+	default:
+		// one agreed performable listed twice
+		if prev == nil || len(prev.AgreedPerformables) == 0 || len(prev.AgreedPerformables) >= ocr2keepersv3.OutcomeAgreedPerformablesLimit {
+			return in, false
+		}
+		p := ocr2keepersv3.AutomationOutcome{SurfacedProposals: prev.SurfacedProposals}
+		p.AgreedPerformables = append(append([]ocr2keepers.CheckResult{}, prev.AgreedPerformables...), prev.AgreedPerformables[r.Intn(len(prev.AgreedPerformables))])
+		jp := toJOutcome(p)
+		out.Prev = &jp
+		out.PrevMode = "invalid"
+	}
+	return out, true
+}
+
 // runOutcome calls the real Outcome on a node.
 func runOutcome(node *Node, in JRound) (JRoundImpl, []byte) {
 	var aos []ocr2plustypes.AttributedObservation
 	for _, o := range in.Obs {
 		aos = append(aos, ocr2plustypes.AttributedObservation{Observation: unhx(o.Raw), Observer: commontypes.OracleID(o.Oracle)})
 	}
-	var prevBytes []byte
-	if in.Prev != nil {
-		prevBytes = must(fromJOutcome(*in.Prev).Encode())
-	}
+	prevBytes := prevBytesOf(in)
 	snap := make([][]byte, len(aos))
 	for k := range aos {
 		snap[k] = append([]byte(nil), aos[k].Observation...)
